@@ -17,10 +17,8 @@ import Glom.Model.C02Prim
   So `T['l'].pop()` changes the cell every other path to that list reaches,
   `T['l'] + [1]` is a NEW list whose members are the very objects of the old
   one, `dict.get` / `setdefault` return the object stored in the dict, a popped
-  member is detached but stays the same object, and the second `arg_val` pass
-  of `Call.glomit` (`revalCall`) rebuilds `list` / `dict` / `tuple` cells —
-  once per cell and pass, because `_ArgValuator` caches by `id()` — and leaves
-  every other object alone.
+  member is detached but stays the same object, and a call hands the callee
+  the very cells its arguments evaluated to.
 
   Numbers and strings are delegated to the identity-free kernel
   `Glom/Model/C02Prim.lean`.  An operation outside the modelled domain returns
@@ -421,75 +419,11 @@ def hCall (s : HS) (f : Val) (args : List Val) (kwargs : List (String × Val)) :
     | .other => errS s unsupported
     | _ => errS s tyErr          -- object is not callable
 
-/-! ### `arg_val` on evaluated data: `_ArgValuator.mode` -/
-
-abbrev Cache := List (Nat × Nat)      -- `_ArgValuator.cache`: id(spec) ↦ result
-
-def copyAll (cp : HS → Cache → Val → Val × HS × Cache) (s : HS) (c : Cache) :
-    List Val → List Val × HS × Cache
-  | [] => ([], s, c)
-  | x :: xs =>
-    let (y, s1, c1) := cp s c x
-    let (ys, s2, c2) := copyAll cp s1 c1 xs
-    (y :: ys, s2, c2)
-
-def copyEntries (cp : HS → Cache → Val → Val × HS × Cache) (s : HS) (c : Cache) :
-    List (Val × Val) → List (Val × Val) × HS × Cache
-  | [] => ([], s, c)
-  | (k, v) :: es =>
-    let (k', s1, c1) := cp s c k
-    let (v', s2, c2) := cp s1 c1 v
-    let (es', s3, c3) := copyEntries cp s2 c2 es
-    ((k', v') :: es', s3, c3)
-
-/-- `scope[glom](target, v, scope)` in argument mode for an evaluated value `v` of plain
-    data: `list` and `dict` are rebuilt (registered in the cache *before* their members are
-    visited), `tuple` is rebuilt (not cached), anything else is returned as it is -/
-def copyVal : Nat → HS → Cache → Val → Val × HS × Cache
-  | 0, s, c, v =>
-    match v with
-    | .ref _ => (v, s.flag "arg_val: data nested too deeply", c)
-    | _ => (v, s, c)
-  | fuel + 1, s, c, v =>
-    match v with
-    | .ref a =>
-      match s.get a with
-      | some (.tuple cls xs) =>
-        let (ys, s1, c1) := copyAll (copyVal fuel) s c xs
-        let (r, s2) := s1.alloc (.tuple cls ys)
-        (r, s2, c1)
-      | some (.list cls xs) =>
-        match c.find? (·.1 == a) with
-        | some (_, a') => (.ref a', s, c)
-        | none =>
-          let a' := s.heap.length
-          let (r, s0) := s.alloc (.list cls [])
-          let (ys, s1, c1) := copyAll (copyVal fuel) s0 ((a, a') :: c) xs
-          (r, s1.set a' (.list cls ys), c1)
-      | some (.dict cls es) =>
-        match c.find? (·.1 == a) with
-        | some (_, a') => (.ref a', s, c)
-        | none =>
-          let a' := s.heap.length
-          let (r, s0) := s.alloc (.dict cls [])
-          let (es', s1, c1) := copyEntries (copyVal fuel) s0 ((a, a') :: c) es
-          (r, s1.set a' (.dict cls es'), c1)
-      | _ => (v, s, c)
-    | _ => (v, s, c)
-
-def copyFuel : Nat := 64
-
-/-- `r(self.func)`, `r(self.args)`, `r(self.kwargs)` of `Call.glomit`: three `arg_val` calls,
-    each with its own cache -/
-def hPassCall (s : HS) (f : Val) (args : List Val) (kwargs : List (String × Val)) :
-    (Val × List Val × List (String × Val)) × HS :=
-  let (f', s1, _) := copyVal copyFuel s [] f
-  let (args', s2, _) := copyAll (copyVal copyFuel) s1 [] args
-  let (kvs, s3, _) := copyAll (copyVal copyFuel) s2 [] (kwargs.map (·.2))
-  ((f', args', (kwargs.map (·.1)).zip kvs), s3)
-
-/-- the primitives of C02 on heap values.  The target's data is plain (no glom spec
-    objects in it), so the second `arg_val` pass is exactly the by-value passing. -/
+/-- the primitives of C02 on heap values.  `revalFunc`: the callee is a callable (a
+    literal in argument mode) or — for a list / tuple / dict, which `arg_val` would
+    rebuild — not callable at all: the rebuilt copy is garbage nothing can reach before
+    the TypeError, so the instance does not allocate it.  No glom spec object is used
+    as callee. -/
 def hPrim : Prim Val HS :=
   { none := .none
     getattr := hGetattr
@@ -501,8 +435,7 @@ def hPrim : Prim Val HS :=
     mkTuple := fun s vs => s.alloc (.tuple "tuple" vs)
     hashKey := fun s k => (if hvHashable s eqFuel k then .ok () else .error tyErr, s)
     mkDict := hMkDict
-    passCall := hPassCall
-    revalCall := fun s _ f args kwargs => hPassCall s f args kwargs }
+    revalFunc := fun s _ f => (f, s) }
 
 /-! ### trees ↔ heap (what an observer sees) -/
 
